@@ -490,7 +490,8 @@ class TextScenario(Scenario):
             if op in (0, 2):
                 data, _version = self.src.get_data(str(arg), {}, "")
                 return [1, text_unvalue(data["v"])] if data else [0]
-            r = self.src.find_system("v", text_value(arg))
+            # 999 stands for a look-up value that is not hashable (the not-hashable index path)
+            r = self.src.find_system("v", ["x"] if arg == 999 else text_value(arg))
             return [0] if r is None else [1, int(r)]
         except ValueError as e:
             if "does not match" in str(e) or "Error while parsing" in str(e):
@@ -783,6 +784,10 @@ class C19(Check):
         # file absent during a delete-and-recreate), followed by more operations on the SAME object from the
         # same and from another thread; the failed call's answer is its exception, later calls complete and
         # see the current data
+        # find_system corners: a value carried by two systems (no unique match), a non-hashable look-up value
+        nu = {"comp": "text", "contents": [[(1, 20), (2, 20), (3, 31)], [(1, 20), (3, 31)]], "bad": [0, 0], "edits": [0],
+              "cache_enabled": 1}
+        out.append((dict(nu, calls=[[[1, 20], [1, 31], [1, 999]], [[1, 20], [0, 2]]]), b1))
         for badkind in (1, 2):
             fb = {"comp": "text", "contents": [[(1, 10)], [], [(1, 12)]], "bad": [0, badkind, 0], "edits": [0, 0],
                   "cache_enabled": 1}
